@@ -440,6 +440,7 @@ void c09probe_infeas() { MP_INFEAS("m"); }
 void c09probe_unsupported() { MP_UNSUPPORTED("m"); }
 void c09probe_optionError() { throw mp::OptionError("m"); }
 void c09probe_fmtError(const char* s) { throw mp::Error("{}", s); }
+void c09probe_fmtIntArg(int n) { throw mp::Error("function {} is not defined", n); }   // nl-reader.h BeginCall, expr.h AddFunction
 }
 '''
 PROBES_RD = '''
@@ -691,6 +692,9 @@ def generate(repo, work):
     if v != ('param', 'c'):
         raise TranslateError('MP_RAISE_WITH_CODE(c, m) does not pass c through: %r' % (v,))
     L.append('def exitCode_withCode (c : Int) : Int := c')
+    v = ec.thrown(ec.probes_err, 'c09probe_fmtIntArg')
+    L.append('/-- `Error("… {} …", n)` with one int argument: which constructor overload resolution picks -/')
+    L.append('def exitCode_fmtIntArg (n : Int) : Int := %s' % ec.lean(v))
     L.append('')
     handlers, ret, try_calls = run_ladder(repo, work, consts)
     L.append('/-! ## BackendApp::Run -/')
